@@ -191,7 +191,7 @@ def handle : Handler := fun op inp impl => do
     let m := match fetchMatchedRollout rq.new rq.rollouts with
       | none => Json.null
       | some r => strJ r.name
-    return { model := m, tags := ["fetch"] }
+    return { model := mkObj [("rollout", m)], tags := ["fetch"] }
   | "effChange" =>
     return { model := boolJ (isEffectiveRevisionChange rq.old rq.new), tags := ["effChange"] }
   | _ => .error s!"webhook: unknown op {op}"
